@@ -1,5 +1,6 @@
 //! vmon: runtime-monitoring core shared by the per-property workloads.
 pub mod big;
+pub mod divgen;
 pub mod gen;
 pub mod mon;
 pub mod rng;
